@@ -125,7 +125,15 @@ class Mono(object):
                         sub = {p: a for p, a in env.items()}
                         body_env = {k: norm.substitute(v, sub) for k, v in body_env.items()}
                         inner = Mono(self.prog, f.module, self.var, dict(self.env, **body_env), self.depth + 1)
-                        return inner.mono(norm.substitute(ret, sub))
+                        # temporaries of the formula (numerator = ...; denominator = ...) are written out, so that the shape
+                        # rules (sign, saturating quotient) see the formula itself
+                        ret2 = norm.substitute(ret, sub)
+                        for _ in range(4):
+                            names_ = set(x.id for x in ast.walk(ret2) if isinstance(x, ast.Name))
+                            if not (names_ & set(body_env)):
+                                break
+                            ret2 = norm.substitute(ret2, body_env)
+                        return inner.mono(ret2)
             return "?"
         return "?"
 
